@@ -5,7 +5,8 @@ patch=$(readlink -f "$1"); tag=$$
 wt=/tmp/all-wt-$tag; vc=/tmp/all-verif-$tag
 git -C /repo worktree add --detach $wt HEAD >/dev/null 2>&1 || exit 2
 if ! git -C $wt apply "$patch"; then echo "PATCH DOES NOT APPLY"; git -C /repo worktree remove --force $wt; exit 2; fi
-rsync -a --exclude .git --exclude '.work/run' --exclude replays /verif/ $vc/; mkdir -p $vc/replays
+# the COMMITTED /verif (other sessions may be editing the working tree), plus the build cache
+mkdir -p $vc; git -C /verif archive HEAD | tar -x -C $vc; rsync -a --exclude run /verif/.work/ $vc/.work/ 2>/dev/null; mkdir -p $vc/replays
 ids=$(python3 -c "import json;print(' '.join(c['property_id'] for c in json.load(open('/verif/MANIFEST.json'))['checks']))")
 for id in $ids; do
   out=$(cd $vc && VERIF_REPO=$wt VERIF_WORK=$vc/.work timeout 1800 bin/check $id --tier quick 2>&1 | grep -E '^VIOLATION|^\[check\]|^KNOWN' | grep -v KNOWN | head -2 | tr '\n' ' ')
